@@ -1,6 +1,7 @@
 package genetics
 
 import (
+	"github.com/yaricom/goNEAT/v4/neat"
 	neatmath "github.com/yaricom/goNEAT/v4/neat/math"
 	"github.com/yaricom/goNEAT/v4/neat/network"
 )
@@ -169,4 +170,60 @@ func VC06_Duplicate_Thorough() {
 }
 func VC06_Independence_Thorough() {
 	vc06(tmplCfg{outputs: 1, hidden: 1, genes: 3, traits: 2, params: 1, symRecur: true, symEnable: true, fixedBase: true}, true, 8)
+}
+
+// spawn: every organism of a freshly spawned population has exactly the start genome's topology and enabled flags and
+// differs from it only in connection weights and the mutation numbers that mirror them
+func vc06Spawn(c tmplCfg, module bool, popSize int) {
+	g := tGenome("g", 1, c)
+	if module {
+		c06AddModule(g)
+	}
+	s0, m0 := snap(g), snapModules(g)
+	opts := &neat.Options{PopSize: popSize, DisjointCoeff: 1, ExcessCoeff: 1, MutdiffCoeff: 0.4, CompatThreshold: 3, GenCompatMethod: neat.GenomeCompatibilityMethodFast}
+	pop := newPopulation()
+	err := pop.spawn(g, opts)
+	vAssert(err == nil, "C06 spawn: spawning succeeds")
+	if err != nil {
+		return
+	}
+	vAssert(len(pop.Organisms) == popSize, "C06 spawn: the population has the configured size")
+	for _, o := range pop.Organisms {
+		s := snap(o.Genotype)
+		vAssert(sameNodes(s, s0) && sameTraits(s, s0), "C06 spawn: nodes and traits equal the start genome's")
+		ok := len(s.genes) == len(s0.genes)
+		if ok {
+			for i := range s.genes {
+				a, b := s.genes[i], s0.genes[i]
+				same := a.in == b.in && a.out == b.out && a.hasTrait == b.hasTrait && a.traitId == b.traitId
+				ok = vAnd(ok, vAnd(same, vAnd(a.innov == b.innov, vAnd(a.enabled == b.enabled, a.recur == b.recur))))
+				vAssert(a.mut == a.weight, "C06 spawn: the mutation number mirrors the connection weight")
+			}
+		}
+		vAssert(ok, "C06 spawn: topology, innovation numbers, enabled and recurrence flags equal the start genome's")
+		vAssert(sameModules(snapModules(o.Genotype), m0), "C06 spawn: modules equal the start genome's")
+		vAssert(vDisjoint(o.Genotype, g), "C06 spawn: organisms share no mutable state with the start genome")
+	}
+	vAssert(sameSnap(snap(g), s0), "C06 spawn: the start genome is left unchanged")
+	// C03: counters are at least every number / id of the start genome (incl. control genes)
+	top := true
+	for _, gn := range g.Genes {
+		top = vAnd(top, gn.InnovationNum <= pop.nextInnovNum)
+	}
+	for _, n := range g.Nodes {
+		top = vAnd(top, n.Id <= int(pop.nextNodeId))
+	}
+	for _, cg := range g.ControlGenes {
+		top = vAnd(top, vAnd(cg.InnovationNum <= pop.nextInnovNum, cg.ControlNode.Id <= int(pop.nextNodeId)))
+	}
+	vAssert(top, "C06 spawn: the population counters start at or above every number and id of the start genome")
+	vReach("end")
+}
+
+func VC06_Spawn_Quick() {
+	vc06Spawn(tmplCfg{outputs: 1, hidden: 1, genes: 3, traits: 1, params: 1, symRecur: true, symEnable: true,
+		links: [][2]int{{0, 2}, {1, 3}, {3, 2}}}, false, 2)
+}
+func VC06_SpawnModule_Quick() {
+	vc06Spawn(tmplCfg{outputs: 1, hidden: 0, genes: 2, traits: 1, params: 1, symEnable: true, fixedBase: true}, true, 1)
 }
